@@ -145,9 +145,11 @@ _C = {
 FLOORS = {
     "quick": {"events": {k: int(v * 0.33) for k, v in _Q.items()},
               "classes": {k: int(v * 0.33) for k, v in _C.items()},
+              "stats": {"dist_query_history_with_shared_prefix": 100},
               "sets": {"walk-paths": 400}, "distinct": 450},
     "thorough": {"events": {k: int(v * 0.33 * 16) for k, v in _Q.items()},
                  "classes": {k: int(v * 0.33 * 16) for k, v in _C.items()},
+                 "stats": {"dist_query_history_with_shared_prefix": 1600},
                  "sets": {"walk-paths": 5000}, "distinct": 7000},
 }
 EXHAUSTIVE = {"quick": False, "thorough": False}
@@ -648,6 +650,21 @@ def _exec_dist(case, mon):
     if case["cache"]:
         mon.lib("Distribution.clear_cache", dist.clear_cache)
         lp2 = check_log_prob(sample, "log_prob(sample) after clear_cache")
+    # ---- a history of same-shaped queries that share prefixes (what a stale sample cache would confuse):
+    # every row cut short at some earlier position (eos-filled), or with its last token changed; then the
+    # original sample again
+    variant = sample.clone().reshape(-1, S)
+    for m in range(variant.size(0)):
+        k = (m + case["seed"]) % S
+        if eos is not None:
+            variant[m, k:] = eos
+        else:
+            variant[m, S - 1] = (int(variant[m, S - 1]) + 1 + m) % V
+    variant = variant.reshape(sample.shape)
+    if not torch.equal(variant, sample):
+        mon.stat("dist_query_history_with_shared_prefix")
+        check_log_prob(variant, "log_prob(prefix-sharing variant) after log_prob(sample)")
+        check_log_prob(sample, "log_prob(sample) after the variant")
     # ---- enumerated support
     if case["support"] and T is not None:
         mon.check(dist.has_enumerate_support, "has-enumerate-support")
